@@ -172,7 +172,7 @@ func shortHash(b []byte) string {
 // allowedStamps is the set of timestamps a package may legitimately carry.
 func allowedStamps(env *engine.Env, extra ...time.Time) map[int64]string {
 	t := tree(env)
-	ok := map[int64]string{PkgMTime.Unix(): "configured mtime", EntryMTime.Unix(): "entry mtime", fixture.T0.Unix(): "script/fixture mtime", 0: "none"}
+	ok := map[int64]string{PkgMTime.Unix(): "configured mtime", EntryMTime.Unix(): "entry mtime", fixture.T0.Unix(): "script/fixture mtime"}
 	for _, n := range t.Nodes {
 		ok[n.MTime.Unix()] = "mtime of source " + n.Rel
 	}
